@@ -8,6 +8,7 @@
 From Coq Require Import List String NArith Lia.
 From FP Require Import Model.Chars Model.Winnow Model.Ast Model.Args Model.Format.
 From FP Require Import Spec.Decimal Spec.FormatSpec Proofs.FormatSeg Proofs.ShortOctal.
+From FP Require Model.Compile.
 Import ListNotations.
 Local Open Scope N_scope.
 
@@ -52,6 +53,20 @@ Theorem C14o_parse_short_backslash : forall c os' rest es,
   exists l rest' es', es = ESpecial XBackslash :: ELit (c :: os' ++ l) :: es'
     /\ Forall Plain l /\ rest = l ++ rest' /\ Boundary rest' /\ parse_format rest' = (Ok es', []).
 Proof. exact pf_short_octal_backslash. Qed.
+
+(** the codes of the octal escapes the parser yields have three octal digits, so they are at most
+    0o777 = 511 and never surrogates: printing a surrogate code as '0' ([scalar_or_zero] of
+    Model/Compile.v, reachable only through the public API) does not concern parsed input *)
+Theorem C14o_parsed_codes_are_scalar : forall fmt i r n,
+  parse_format i = (Ok fmt, r) -> In (ESpecial (XAscii n)) fmt ->
+  n <= 511 /\ Compile.scalar_or_zero n = n.
+Proof. exact parsed_codes_are_scalar. Qed.
+(** the hypotheses are met (the largest code), and a surrogate code is indeed changed *)
+Example C14o_parsed_codes_example :
+  parse_format (chars "a\777") = (Ok [ELit (chars "a"); ESpecial (XAscii 511)], [])
+  /\ In (ESpecial (XAscii 511)) [ELit (chars "a"); ESpecial (XAscii 511)]
+  /\ Compile.scalar_or_zero 55296 = 48.
+Proof. split; [vm_compute; reflexivity|split; [right; left; reflexivity|reflexivity]]. Qed.
 
 (** the pinned instances: two digits, one digit, \0 alone and before one digit, two digits
     before a non-octal digit and before another escape; and, for contrast, three digits *)
